@@ -1,7 +1,7 @@
 """C07 - CYK membership and the CYK table are exact."""
 from hypothesis import strategies as st
 
-from harness.engine import Clause, Fail, lib
+from harness.engine import Clause, Fail, lib, lib_verbose
 from ref import cfg as RC
 from gen import cfg as GC
 from bridge import cfg as BC
@@ -35,6 +35,7 @@ def grammar_classes(spec):
 
 def run_accepts(case):
     spec = case["cfg"]
+    lib = lib_verbose if case.get("verbose") else globals()["lib"]
     G = BC.mk_cfg(spec)
     before = BC.canon(spec)
     L = case["L"]
@@ -67,11 +68,12 @@ def run_accepts(case):
     cls = grammar_classes(spec)
     if RC.accepts(spec, ""):
         cls.add("nullable_start")
-    return {"nt": len(spec["V"]) >= 2 and 0 < acc < len(ws), "cls": sorted(cls), "out": {"words": len(ws), "accepted": acc}}
+    return {"nt": len(spec["V"]) >= 2 and 0 < acc < len(ws), "cls": sorted(cls) + (["verbose_keyword"] if case.get("verbose") else []), "out": {"words": len(ws), "accepted": acc}}
 
 
 def run_cyk(case):
     spec, w = case["cfg"], case["w"]
+    lib = lib_verbose if case.get("verbose") else globals()["lib"]
     G = BC.mk_cfg(spec)
     X = lib(cfg_cyk_matrix, G, w)
     n = len(w)
@@ -87,7 +89,7 @@ def run_cyk(case):
     acc = lib(cfg_accepts_word, G, w)
     if acc is not ((spec["S"], 0, n) in T):
         raise Fail("cfg_accepts_word_cnf", "cfg_accepts_word(%r) = %r on a CNF grammar, derivability says %r" % (w, acc, not acc))
-    return {"nt": len(spec["V"]) >= 2 and n >= 2 and nonempty >= n + 1, "cls": ["accepted" if acc else "rejected"], "out": {"n": n, "nonempty_cells": nonempty}}
+    return {"nt": len(spec["V"]) >= 2 and n >= 2 and nonempty >= n + 1, "cls": ["accepted" if acc else "rejected"] + (["verbose_keyword"] if case.get("verbose") else []), "out": {"n": n, "nonempty_cells": nonempty}}
 
 
 @st.composite
@@ -109,14 +111,14 @@ def accept_cases(draw, tier):
             ch = draw(st.sampled_from([c for c in ["_", "ε", "z", " "] if c not in spec["T"]]))
             i = draw(st.integers(0, len(w)))
             foreign.append(w[:i] + ch + w[i:])
-    return {"cfg": spec, "L": 4 if two else 6, "alt_start": alt, "id_offset": draw(st.integers(0, 14)), "foreign": foreign}
+    return {"cfg": spec, "L": 4 if two else 6, "alt_start": alt, "id_offset": draw(st.integers(0, 14)), "foreign": foreign, "verbose": draw(st.integers(0, 4)) == 0}
 
 
 @st.composite
 def cyk_cases(draw, tier):
     spec = draw(st.one_of(GC.cnf_specs(max_vars=4, max_rules=10), GC.cnf_specs(max_vars=4, max_rules=10), GC.multichar_cnf_specs()))
     w = draw(st.text(alphabet=spec["T"], min_size=1, max_size=7))
-    return {"cfg": spec, "w": w}
+    return {"cfg": spec, "w": w, "verbose": draw(st.integers(0, 4)) == 0}
 
 
 def derive_long_word(draw, spec, target):
@@ -195,7 +197,7 @@ def long_cases(draw, tier):
         k = draw(st.integers(0, 2))
         other = spec["T"][draw(st.integers(0, len(spec["T"]) - 1))]
         w = w[:i] + (other if k == 0 else ("" if k == 1 else w[i] * 2)) + w[i + 1:]
-    return {"cfg": spec, "w": w or spec["T"][0]}
+    return {"cfg": spec, "w": w or spec["T"][0], "verbose": draw(st.integers(0, 5)) == 0}
 
 
 def run_long(case):
@@ -222,4 +224,4 @@ KNOWN_PREDICATES = {}
 
 # coverage-guided second driver (atheris / libFuzzer through Hypothesis' fuzz_one_input) for the core clauses: (clause, quick runs, thorough runs)
 from harness.covfuzz import cov_clauses  # noqa: E402
-CLAUSES += cov_clauses('C07', CLAUSES, [('accepts', 1000, 20000), ('cyk_table', 2000, 40000)])
+CLAUSES += cov_clauses('C07', CLAUSES, [('accepts', 1000, 6666), ('cyk_table', 2000, 13333)])
